@@ -87,6 +87,10 @@ def cases(tier, seed):
                 # a source disk as Disk BASIC writes it: streams that end on a sector / granule boundary have no spare sector or granule
                 for tkind in ("cas", "dsk"):
                     yield {"k": "conv", "skind": "dsk", "files": fset, "tkind": tkind, "sel": None, "mode": None, "absent": False, "tight": True}
+            if fset and len(fset) <= 2:
+                # the source image named through a symbolic link that lives in another directory and whose text is relative to it
+                for tkind in ("cas", "dsk"):
+                    yield {"k": "conv", "skind": skind, "files": fset, "tkind": tkind, "sel": None, "mode": None, "absent": False, "rellink": True}
             if fset:
                 yield {"k": "chain", "skind": skind, "files": fset}
                 if skind == "cas":
@@ -174,7 +178,7 @@ def check_case(case):
     names = ",".join(FILES[i]["name"] for i in case["files"]) or "none"
     if case["k"] == "conv":
         sel = "all" if case["sel"] is None else (",".join(FILES[i]["name"] for i in case["sel"]) + ("+absent" if case["absent"] else "")) or "absent-only"
-        cell = "conv|{}{}>{}|{}|sel={}|{}".format(case["skind"], ".gaps" if case.get("gaps") else ".holes" if case.get("holes") else ".chunk{}".format(case["chunk"]) if case.get("chunk") else ".nulpad" if case.get("nulpad") else ".tight" if case.get("tight") else "", case["tkind"], names, sel, case["mode"] or "-")
+        cell = "conv|{}{}>{}|{}|sel={}|{}".format(case["skind"], ".gaps" if case.get("gaps") else ".holes" if case.get("holes") else ".chunk{}".format(case["chunk"]) if case.get("chunk") else ".nulpad" if case.get("nulpad") else ".tight" if case.get("tight") else ".rellink" if case.get("rellink") else "", case["tkind"], names, sel, case["mode"] or "-")
     elif case["k"] == "chain":
         cell = "chain|{}|{}".format(case["skind"], names)
     elif case["k"] == "multi":
@@ -190,7 +194,11 @@ def check_case(case):
     try:
         os.chdir(td)
         src = "src." + case["skind"]
-        specs = write_source(src, case["skind"], case["files"], case.get("gaps"), case.get("holes", False), case.get("chunk", 255), case.get("nulpad", False), case.get("tight", False))
+        if case.get("rellink"):
+            os.makedirs("images", exist_ok=True)
+            os.symlink("real." + case["skind"], "images/current." + case["skind"])
+            src = "images/current." + case["skind"]
+        specs = write_source(src if not case.get("rellink") else "images/real." + case["skind"], case["skind"], case["files"], case.get("gaps"), case.get("holes", False), case.get("chunk", 255), case.get("nulpad", False), case.get("tight", False))
         if case["k"] == "conv":
             tgt = "tgt." + case["tkind"]
             files_arg = None
